@@ -40,12 +40,12 @@ class CallMixin:
                 q = self.mod.name + "." + name
             if q is None and name in self.mod.classes:
                 q = self.mod.name + "." + name
+            if q in self.global_calls:
+                return self.global_calls[q](self, node, st)
             if q in S.REGISTRY:
                 return self.call_contract(S.REGISTRY[q], *self.eval_args(node, st), node, st)
             if q and q + ".__init__" in S.REGISTRY:
                 return self.construct(q, node, st)
-            if q in self.global_calls:
-                return self.global_calls[q](self, node, st)
             raise Unsupported("call of %s (%s): no contract" % (name, q), node)
         if isinstance(f, ast.Attribute):
             dotted = self.dotted(f)
